@@ -351,3 +351,38 @@ def r_dedup(db, rep):
                 rep.viol("SSA::locate#occs-extent", f.nloc(allocs[0][1]),
                          "SSA::locate allocates %s entries for *occs but returns %s occurrences: callers store the sentinel at occs[count]" % (
                              canon(e2), canon(cnt)), f.qn)
+
+
+@rule("R-DUPSKIP", 4, "sibling agreement of the duplicate-skipping iterators: next() skips equal neighbours with a *loop* whose only "
+                      "condition is a[processed-1] == a[processed] (the 0 sentinel ends it)")
+def r_dupskip(db, rep):
+    classes = [k for base, k in iterator_classes(db) if k.endswith("Duplicates")]
+    for k in classes:
+        for f in db.methods_of(k, "next"):
+            rep.visit(f)
+            rep.inst(f.loc, "%s: duplicate-skipping step" % f.qn)
+            loops = [n for n in f.live_nodes() if n["k"] in ("DoStmt", "WhileStmt") and n.get("cond") is not None and
+                     any(x["k"] in ("ArraySubscriptExpr", "CXXOperatorCallExpr") for x in walk(n["cond"]))]
+            rep.ob()
+            if not loops:
+                rep.viol("%s#no-skip-loop" % f.qn, f.loc,
+                         "%s has no loop that skips equal neighbours: a member with three or more occurrences is reported more than once" % f.qn, f.qn)
+                continue
+            c = strip(loops[0]["cond"])
+            rep.ob()
+            ok = False
+            if c["k"] == "BinaryOperator" and c["op"] == "==":
+                def elem(x):
+                    x = strip(x)
+                    if x["k"] == "ArraySubscriptExpr":
+                        return access_path(f, x["base"]), canon(SeqBuilder(db, f, "c", nosubst=True).sym(x["idx"]))
+                    if x["k"] == "CXXOperatorCallExpr" and x.get("opcall") == "[]":
+                        return access_path(f, x["args"][0]), canon(SeqBuilder(db, f, "c", nosubst=True).sym(x["args"][1]))
+                    return None, None
+                (ba, ia), (bb, ib) = elem(c["lhs"]), elem(c["rhs"])
+                if ba is not None and ba == bb and {ia, ib} == {"F:this.processed", "(-1 + F:this.processed)"}:
+                    ok = True
+            if not ok:
+                rep.viol("%s#skip-condition" % f.qn, f.nloc(loops[0]),
+                         "%s: the duplicate-skipping loop does not run exactly while a[processed-1] == a[processed] (its siblings do; "
+                         "an extra bound or a different comparison lets a duplicate through or reads a different cell)" % f.qn, f.qn)
